@@ -105,14 +105,16 @@ Theorem splice_drop_wrong_type c v u xs s e i j known good tb rest k ty :
     splice_drop c known d (N.of_nat n) items (v, u) = Panic PType (v', u') /\
     Rep c v' (firstn s xs) /\ vbk v' = vbk v /\ ufuse u' = None /\ unext u' = unext u /\
     uevents u' = (if c_dg c then rev (map EDrop (tb :: rest)) else []) ++ repeat ENext (S (length good))
-                 ++ (if c_dg c then rev (map EDrop (firstn (j - i) (skipn i xs))) else []) ++ uevents u.
+                 ++ (if c_dg c then rev (map EDrop (firstn (j - i) (skipn i xs))) else []) ++ uevents u /\
+    (* the storage is only replaced when the announced result does not fit *)
+    (N.of_nat new_len <= vcap v -> vcap v' = vcap v).
 Proof.
   intros Hwf HA Hf Hty items n new_len Hroom d.
   assert (Hn : n = (length good + S (length rest))%nat).
   { unfold n, items. rewrite app_length, map_length. cbn [length]. rewrite map_length. reflexivity. }
   pose proof (ra_tok _ _ _ _ _ _ _ HA) as Htok. pose proof (ra_le _ _ _ _ _ _ _ HA) as Hle.
   destruct (splice_prep_ok c v u xs s e i j known n Hwf HA Hf Hroom)
-    as (v2 & u2 & Ep & Hl2 & Hc2 & Hus2 & Hst2 & Hpre2 & Htl2 & Hbk2 & Hn2 & Hf2 & He2 & _).
+    as (v2 & u2 & Ep & Hl2 & Hc2 & Hus2 & Hst2 & Hpre2 & Htl2 & Hbk2 & Hn2 & Hf2 & He2 & Hcap2).
   destruct (splice_fill_wrong c k ty Hty good n tb rest s 0 v2 u2 Hst2) as (m' & u' & Ef & Hlm & Hpm & Hf' & Hn' & He'); auto.
   { unfold new_len in Hc2. lia. }
   { lia. }
@@ -130,5 +132,5 @@ Proof.
         apply (heldm_firstn_eq (szn c) (vmem v2) m' 0 (firstn s xs) (s * szn c) Hpre2 Hpm).
         rewrite firstn_length. nia.
       * apply Forall_firstn'. exact Htok.
-    + rewrite He', He2. reflexivity.
+    + split; [rewrite He', He2; reflexivity|]. cbn [with_mem vcap]. exact Hcap2.
 Qed.
